@@ -223,6 +223,9 @@ type c09Conn struct {
 	stalledW func() int
 	// a request whose body is far larger than the socket buffers (real stream sockets)
 	bigPost func(ctx context.Context) error
+	// one housekeeping call with the given (virtual) time: Conn.CheckExpirations, or the function the
+	// connection registered with its periodic runner (datagram transports only)
+	tick func(now time.Time)
 }
 
 type c09Cfg struct {
@@ -435,6 +438,7 @@ func c09WrapUDP(tr int, cc *udpClient.Conn) *c09Conn {
 	c.addOn = func(f func()) { cc.AddOnClose(f) }
 	c.done = cc.Done
 	c.ctxDone = func() <-chan struct{} { return cc.Context().Done() }
+	c.tick = cc.CheckExpirations
 	return c
 }
 
@@ -611,9 +615,10 @@ func newC09Conn(tr int, cfg c09Cfg) (*c09Conn, error) {
 				mu.Unlock()
 			}
 		}()
+		var runner atomic.Value // the function the connection hands to its periodic runner; called by the tick family only
 		dopts := []udp.Option{
 			options.WithErrors(func(error) {}),
-			options.WithPeriodicRunner(func(func(now time.Time) bool) {}),
+			options.WithPeriodicRunner(func(f func(now time.Time) bool) { runner.Store(f) }),
 			options.WithTransmission(cfg.nstart, 1000*time.Hour, 4),
 			options.WithLimitClientParallelRequest(cfg.limitTotal),
 			options.WithLimitClientEndpointParallelRequest(cfg.limitEndpoint),
@@ -640,6 +645,9 @@ func newC09Conn(tr int, cfg c09Cfg) (*c09Conn, error) {
 			cc = udp.Client(ownSock, dopts...)
 		}
 		c := c09WrapUDP(3, cc)
+		if f, ok := runner.Load().(func(now time.Time) bool); ok {
+			c.tick = func(now time.Time) { f(now) }
+		}
 		c.sent = func() [][]byte {
 			mu.Lock()
 			defer mu.Unlock()
@@ -1583,6 +1591,32 @@ func runC09(a runArgs) error {
 			coqBool(o.done), coqBool(o.ctx), coqBool(o.ops), coqBool(o.late)), k.desc(), true,
 			"rend", fmt.Sprintf("rend-tr%d", k.tr), fmt.Sprintf("rend-sock-%s", coqBool(k.sock)), fmt.Sprintf("rend-cause%d", k.cause))
 	}
+	doSrace := func(k c09SraceCase, o c09SraceObs) {
+		e.Add(fmt.Sprintf("StopRace %d %d %d %d %d %s %s %s %s %s", k.who, k.nstop, k.npeers, k.ncb, o.nconn, coqZList(o.cb),
+			coqBool(o.done), coqBool(o.closers), coqBool(o.panic_), coqBool(o.serve)), k.desc(), true,
+			"srace", fmt.Sprintf("srace-who%d", k.who), fmt.Sprintf("srace-nstop%d", k.nstop), fmt.Sprintf("srace-npeers%d", k.npeers))
+	}
+	doTick := func(k c09TickCase, o c09TickObs) {
+		e.Add(fmt.Sprintf("Tick %d %d %d %d %s %s %d %s", k.tr, k.op, k.mode, k.trig, coqBool(o.tick), coqBool(o.ret), o.err, coqBool(o.late)),
+			k.desc(), true,
+			"tick", fmt.Sprintf("tick-tr%d", k.tr), fmt.Sprintf("tick-op%d", k.op), fmt.Sprintf("tick-mode%d", k.mode), fmt.Sprintf("tick-trig%d", k.trig))
+	}
+	runSrace := func(k c09SraceCase) (o c09SraceObs, err error) {
+		for attempt := 0; attempt < 3; attempt++ { // a failed SETUP (not an observation) is retried
+			if o, err = runC09Srace(k); err == nil {
+				break
+			}
+		}
+		return o, err
+	}
+	runTick := func(k c09TickCase) (o c09TickObs, err error) {
+		for attempt := 0; attempt < 3; attempt++ {
+			if o, err = runC09Tick(k); err == nil {
+				break
+			}
+		}
+		return o, err
+	}
 	runStall := func(k c09StallCase) (o c09StallObs, err error) {
 		for attempt := 0; attempt < 3; attempt++ { // a failed SETUP (not an observation) is retried
 			if o, err = runC09Stall(k); err == nil {
@@ -1625,6 +1659,20 @@ func runC09(a runArgs) error {
 				setupErrs = append(setupErrs, k.desc()+": "+err.Error())
 			} else {
 				doRend(k, o)
+			}
+		case f[0] == "srace" && len(f) == 5:
+			k := c09SraceCase{atoi(f[1]), atoi(f[2]), atoi(f[3]), atoi(f[4])}
+			if o, err := runSrace(k); err != nil {
+				setupErrs = append(setupErrs, k.desc()+": "+err.Error())
+			} else {
+				doSrace(k, o)
+			}
+		case f[0] == "tick" && len(f) == 5:
+			k := c09TickCase{atoi(f[1]), atoi(f[2]), atoi(f[3]), atoi(f[4])}
+			if o, err := runTick(k); err != nil {
+				setupErrs = append(setupErrs, k.desc()+": "+err.Error())
+			} else {
+				doTick(k, o)
 			}
 		default:
 			return fmt.Errorf("bad descriptor %q", a.only)
@@ -1833,6 +1881,84 @@ func runC09(a runArgs) error {
 				continue
 			}
 			doRend(k, rendOut[i])
+		}
+	}
+	// ---------- Stop against the exit path of Serve; housekeeping on the table of pending message IDs ----------
+	{
+		var sraces []c09SraceCase
+		sreps := 1
+		if thorough {
+			sreps = 6
+		}
+		for rep := 0; rep < sreps; rep++ {
+			for _, who := range []int{0, 1} {
+				for _, nstop := range []int{1, 2, 3} {
+					if !thorough && who == 1 && nstop == 3 {
+						continue
+					}
+					sraces = append(sraces, c09SraceCase{who, nstop, 2 + rng.Intn(7), 1 + rng.Intn(3)})
+				}
+			}
+			sraces = append(sraces, c09SraceCase{0, 1, 1, 1 + rng.Intn(2)}) // a single peer besides the late one
+		}
+		var ticks []c09TickCase
+		for _, tr := range []int{0, 2, 3} {
+			for _, op := range []int{0, 1, 2, 3, 4} {
+				for mode := 0; mode <= 3; mode++ {
+					for _, trig := range []int{0, 1, 2, 4} {
+						k := c09TickCase{tr, op, mode, trig}
+						if !c09TickApplicable(k) {
+							continue
+						}
+						if !thorough && tr != 0 && (op == 1 || op == 2 || op == 4) {
+							continue
+						}
+						ticks = append(ticks, k)
+					}
+				}
+			}
+		}
+		if thorough {
+			ticks = append(append([]c09TickCase(nil), ticks...), ticks...)
+		}
+		sraceOut := make([]c09SraceObs, len(sraces))
+		sraceErr := make([]error, len(sraces))
+		tickOut := make([]c09TickObs, len(ticks))
+		tickErr := make([]error, len(ticks))
+		var wg sync.WaitGroup
+		sem3 := make(chan struct{}, 8)
+		for i := range sraces {
+			wg.Add(1)
+			sem3 <- struct{}{}
+			go func(i int) {
+				defer wg.Done()
+				defer func() { <-sem3 }()
+				sraceOut[i], sraceErr[i] = runSrace(sraces[i])
+			}(i)
+		}
+		for i := range ticks {
+			wg.Add(1)
+			sem3 <- struct{}{}
+			go func(i int) {
+				defer wg.Done()
+				defer func() { <-sem3 }()
+				tickOut[i], tickErr[i] = runTick(ticks[i])
+			}(i)
+		}
+		wg.Wait()
+		for i, k := range sraces {
+			if sraceErr[i] != nil {
+				setupErrs = append(setupErrs, k.desc()+": "+sraceErr[i].Error())
+				continue
+			}
+			doSrace(k, sraceOut[i])
+		}
+		for i, k := range ticks {
+			if tickErr[i] != nil {
+				setupErrs = append(setupErrs, k.desc()+": "+tickErr[i].Error())
+				continue
+			}
+			doTick(k, tickOut[i])
 		}
 	}
 	// real loopback tcp, peer never reads: sequential (the witness is a stack snapshot of the whole process)
